@@ -13,11 +13,26 @@
    Where the model has no function of the same name the right-hand side is the model expression the run
    tables (Run/RunC0x.v) use for that operation: strict_div_euclid = U_div_euclid, lt = cmp_lt (ucmp a b),
    max = cmp_max (ucmp a b) a b, clamp = clamp ucmp, strict_add_signed = option_expect (U_checked_add_signed ..). *)
-From Bnum.Proofs Require Export GlueTieCommon GlueTieC01 GlueTieC02 GlueTieC03 GlueTieC05.
+(* Round 2 (GlueTieC04, C06, C07, C08, C18 and the `round 2` blocks of GlueTieC01, C02, C03, C05; boiler-plate by
+   tools/mk_gluetie.py from tools/gluetie_spec.py, statements fixed by committing the files): the other non-loop
+   functions - mod.rs, const_trait_fillers.rs, the checked / overflowing functions with nested early returns or
+   `let mut`, int/unchecked.rs, the operator trait impls, the num_traits forwarders.  Still no well-formedness hypothesis. *)
+From Bnum.Proofs Require Export GlueTieCommon GlueTieC01 GlueTieC02 GlueTieC03 GlueTieC04 GlueTieC05 GlueTieC06 GlueTieC07 GlueTieC08 GlueTieC18.
 
 Theorem glue_matches_model :
   glue_addsub_statement /\ glue_mul_statement /\ glue_div_statement /\ glue_shift_statement.
 Proof.
   exact (conj glue_addsub_matches_model (conj glue_mul_matches_model
            (conj glue_div_matches_model glue_shift_matches_model))).
+Qed.
+
+(* second round (the non-loop functions of buint/mod.rs, bint/mod.rs, const_trait_fillers.rs, int/unchecked.rs and the
+   functions of checked.rs / overflowing.rs with nested early returns or `let mut`): one family statement per property *)
+Theorem glue2_matches_model :
+  glue_addsub2_statement /\ glue_mul2_statement /\ glue_div2_statement /\ glue_ops_statement /\ glue_rotate_statement /\ glue_bits_statement /\
+  glue_sign_statement /\ glue_pow_statement /\ glue_numtraits_statement.
+Proof.
+  exact (conj glue_addsub2_matches_model (conj glue_mul2_matches_model (conj glue_div2_matches_model (conj glue_ops_matches_model
+           (conj glue_rotate_matches_model (conj glue_bits_matches_model (conj glue_sign_matches_model
+           (conj glue_pow_matches_model glue_numtraits_matches_model)))))))).
 Qed.
